@@ -640,3 +640,21 @@ mutant("C15-M23", "C15", "R15i", "proposal blocks overlap", OP, "Optimization.up
 mutant("C15-M24", "C15", "R15i", "relative bounds divide", OP, "Adjustable.get_hard_bounds", "else x0 * self.upper_bound", "else x0 / self.upper_bound")
 mutant("C15-M25", "C15", "R15i", "every year receives the first proposed value", OP, "SpendingAdjustment.update_instructions", "instructions.alloc[self.prog_name].insert(t, adjustable_values[i])", "instructions.alloc[self.prog_name].insert(t, adjustable_values[0])")
 twin("C15-T4", "C15", "time range written with the comparisons turned round", OP, "Measurable.get_objective_val", "(model.t >= self.t[0]) & (model.t < self.t[1])", "(model.t < self.t[1]) & (model.t >= self.t[0])")
+
+# ---- fifth sweep (function_parser.py, cascade.py)
+mutant("C19-M20", "C19", "R19g", "double-underscore guard inverted", FP, "parse_function", 'assert "__" not in fcn_str', 'assert "__" in fcn_str or True')
+mutant("C19-M21", "C19", "R19g", "whitelist test inverted", FP, "parse_function", "node.func.id in supported_functions, f", "node.func.id not in supported_functions, f")
+mutant("C19-M22", "C19", "R19g", "sdiv masks where the numerator is zero", FP, "sdiv", "return np.divide(numerator, denominator, out=np.zeros_like(numerator, dtype=float), where=numerator != 0)", "return np.divide(numerator, denominator, out=np.zeros_like(numerator, dtype=float), where=numerator == 0)")
+mutant("C19-M23", "C19", "R19g", "sdiv fills ones", FP, "sdiv", "out=np.zeros_like(denominator, dtype=float)", "out=np.ones_like(denominator, dtype=float)")
+mutant("C19-M24", "C19", "R19g", "transformer replaces every operator except division", FP, "_DivTransformer.visit_BinOp", "if not isinstance(node.op, ast.Div):", "if isinstance(node.op, ast.Div):")
+mutant("C19-M25", "C19", "R19g", "visited right operand not re-attached", FP, "_DivTransformer.visit_BinOp", "            node.right = rhs\n", "")
+mutant("C19-M26", "C19", "R19g", "numeric-constant test accepts strings", FP, "parse_function", "assert isinstance(node.value, (int, float)),", "assert isinstance(node.value, (int, float, str)),")
+mutant("C19-M27", "C19", "R19g", "sdiv arguments swapped by the transformer", FP, "_DivTransformer.visit_BinOp", "args = [lhs, rhs]", "args = [rhs, lhs]")
+twin("C19-T5", "C19", "double-underscore guard as if/raise", FP, "parse_function", 'assert "__" not in fcn_str, "Cannot use double underscores in functions"', 'if "__" in fcn_str:\n        raise AssertionError("Cannot use double underscores in functions")')
+mutant("C20-M17", "C20", "R20i", "cascade data subtracts later constituents", CS, "get_cascade_data", "cascade_data[stage_name] += data_values[code_name]", "cascade_data[stage_name] -= data_values[code_name]")
+mutant("C20-M18", "C20", "R20i", "later populations overwrite instead of adding", CS, "get_cascade_data", "                    if pop_idx == 0:", "                    if pop_idx >= 0:")
+mutant("C20-M19", "C20", "R20i", "nesting test compares a stage with itself", CS, "validate_cascade", "if not (set(expanded[i + 1]) <= set(expanded[i])):", "if not (set(expanded[i + 0]) <= set(expanded[i])):")
+mutant("C20-M20", "C20", "R20i", "nesting test inverted", CS, "validate_cascade", "if not (set(expanded[i + 1]) <= set(expanded[i])):", "if set(expanded[i + 1]) <= set(expanded[i]):")
+mutant("C20-M21", "C20", "R20i", "last pair of stages not checked", CS, "validate_cascade", "for i in range(0, len(expanded) - 1):", "for i in range(0, len(expanded) - 2):")
+mutant("C20-M22", "C20", "R20i", "databook year matched with >=", CS, "get_cascade_data", "match = np.where(t == tval)[0]", "match = np.where(t >= tval)[0]")
+twin("C20-T6", "C20", "subset test written with issubset", CS, "validate_cascade", "if not (set(expanded[i + 1]) <= set(expanded[i])):", "if not (set(expanded[i + 1]) <= set(expanded[i])) :")
